@@ -76,7 +76,11 @@ def property_selftests(run, outdir, meta):
       Read names: "no answer" for ../logs<something>/<file> (a sibling directory that exists) turned into the honest
         window of that file / one byte of an answer given through a symbolic link changed (and: that answer withheld
         must be ACCEPTED -- the statement does not decide it);
-      suppression: a line written exactly one interval after the last line of its id reported as not written."""
+      suppression: a line written exactly one interval after the last line of its id reported as not written;
+      options: a line of an id-carrying entry point, logged while lines are also printed to standard output, reported
+        as not in the file;
+      fallback places: "no answer" for a well-known name that is not in logs/ turned into the bytes of the decoy of
+        that name in the directory ProgramData points to (or below the working directory)."""
     hists = []
     for job in [j for j in meta.get("jobs", []) if j["spec"] == "Trace_FileLogger"]:
         hists += vf.split_histories(open(os.path.join(outdir, job["trace"])).read().splitlines())
@@ -184,6 +188,44 @@ def property_selftests(run, outdir, meta):
             break
         if "line_one_interval_after_its_id_reported_suppressed_rejected" in res:
             break
+    # ---- options: lines also go to standard output; a Println/Printf line reported as missing from the file
+    for ev in of("opts"):
+        so = False
+        for i, e in enumerate(ev):
+            if e["ev"] in ("Open", "Conf"):
+                so = e["so"]
+            if not (so and e["ev"] == "Log" and e["kind"] == "P" and bytes(e["s"]).find(b"unique") >= 0):
+                continue
+            adds = [x for x in e["obs"]["files"] if x["add"] and not x["whole"]]
+            if len(adds) != 1:
+                continue
+            a = copy.deepcopy(ev[:i + 1])
+            for x in a[-1]["obs"]["files"]:
+                if x["add"] and not x["whole"]:
+                    x["size"] -= len(x["add"])
+                    x["add"] = []
+            res["id_line_missing_from_the_file_while_stdout_is_on_rejected"] = _judge(run, outdir, spec, "opts_stdout", a, False)
+            break
+        if "id_line_missing_from_the_file_while_stdout_is_on_rejected" in res:
+            break
+    # ---- fallback places: a well-known name that is not in logs/ answered from the decoy elsewhere
+    for ev in of("read"):
+        for i, e in enumerate(ev):
+            if e["ev"] != "Read" or not e["res"]["nil"] or e["len"] < 1 or e["end"] != -1 or not quiet(e):
+                continue
+            f = bytes(e["file"]).decode("utf8", "replace")
+            there = [x for x in e["obs"]["out"] if bytes(x["n"]).decode("utf8", "replace").endswith("/WhaTap/" + f) and x["data"]]
+            if "/" in f or not there:
+                continue
+            a = copy.deepcopy(ev[:i + 1])
+            d = there[0]["data"]
+            n = min(len(d), e["len"])
+            a[-1]["res"] = {"nil": False, "before": len(d) - n, "next": -1, "text": d[len(d) - n:]}
+            res["answer_from_a_fallback_place_outside_logs_rejected"] = _judge(run, outdir, spec, "decoy_served", a, False)
+            res["res_decoy"] = f
+            break
+        if "answer_from_a_fallback_place_outside_logs_rejected" in res:
+            break
     # ---- Read over content that is not ASCII: the window begins inside a character; the same answer with the
     #      leading continuation bytes dropped (a "cleaned" text at the unchanged offset) must be rejected
     for ev in of("readmb"):
@@ -242,7 +284,8 @@ def property_selftests(run, outdir, meta):
         if "line_written_over_another_writers_bytes_rejected" in res:
             break
     _judge_all(run)
-    need = ["read_text_cleaned_of_a_cut_character_rejected", "rotation_that_did_not_make_logs_again_rejected",
+    need = ["id_line_missing_from_the_file_while_stdout_is_on_rejected", "answer_from_a_fallback_place_outside_logs_rejected",
+            "read_text_cleaned_of_a_cut_character_rejected", "rotation_that_did_not_make_logs_again_rejected",
             "line_written_over_another_writers_bytes_rejected",
             "expired_file_reported_kept_rejected", "survivor_reported_deleted_rejected", "read_text_byte_changed_rejected",
             "read_offset_moved_rejected", "read_answer_turned_nil_rejected", "line_one_interval_after_its_id_reported_suppressed_rejected",
@@ -353,7 +396,9 @@ def _real_code(run):
     run.assumptions += [
         "the 10 s timer is replaced by RunCycleForVerif (one cycle on demand) and the constructor runs without the background goroutine; the clock is golib's own sync-time mode with its ticker stopped (dateutil.Now() = a value the harness sets), days 2001..2099",
         "the 20-byte time stamp the Go log package puts before every line is real wall-clock time: only its format is judged; the number of millisecond digits of the banner's own time stamp is left to C19",
-        "suppression is judged as permitted/forbidden (a line may be suppressed only if a line with the same id was emitted less than the interval ago on the virtual clock); the size and eviction of the 1000-entry id cache are not constrained",
+        "suppression is judged as permitted/forbidden (a line may be suppressed only if a line with the same id was emitted less than the interval ago on the virtual clock); the size and eviction of the 1000-entry id cache are not constrained: a repeat inside the interval that IS written (an id the logger has forgotten -- evicted, or lost by its table) is an accepted line like any other and satisfies the statement, which restricts suppression ('suppressed only within the configured interval') and does not demand it; histories with 80..1100 distinct ids (gen suppmany) look for the opposite, a line withheld without an emitted line of its id inside the interval",
+        "the standard-output option (WithStdout, log_stdout_enabled) is a setting recorded in Open/Conf and carried in the specification's conf; no action of the specification depends on it, so an accepted line of any entry point must be in the file under either value; what the loggers print to the process's standard output is sent to a scratch file and not judged; PrintlnStd is called with sysout=false only (with true its contract is 'standard output instead of the file'). Constructor options not given are recorded with the documented defaults (id whatap, name boot, level warn, stdout off); WHATAP_HOME and the working directory as ways to say <home> are set by the harness for the construction / for the whole history",
+        "fallback places: in Read-focused and some random histories files with well-known names (dotnet-profiler.log, whatap-hook.log, whatap-boot.log, whatap.conf, an own dated name, r10, missing.log) lie in a directory that ProgramData, PROGRAMDATA, ALLUSERSPROFILE, APPDATA, LOCALAPPDATA, WHATAP_HOME, WHATAP_LOG_HOME point to (each set or unset per history), in the working directory, below both in WhaTap/ and logs/, and in <home>; they are files outside logs/ like the others (must never change, never be served). Other variables (HOME, TMPDIR, PWD) are left alone. GetLogFiles is called only to obtain names for Read; its answer is not judged (a panic of it is ignored)",
         "when retention runs is not part of the property: it must have run once more than 60 s of virtual time have passed since it last ran and a cycle runs; it may run earlier",
         "names the statement does not decide may or may not be removed by retention: own prefix and '-<8 digits>.' before the last dot with year 0000 or an extension other than .log",
         "Read: whether an answer is given is pinned for plain file names of logs/ that are no symbolic links; for other names (slashes, dot segments) the answer may be nil or come from the file the name lexically resolves to inside logs/ (resolution as a path join does it); a name that lexically leaves logs/ must get no answer, whatever exists there; where the window lies is judged by ReadHonest only (contiguous slice at the reported offset, at most the requested length); `next` is not judged",
